@@ -139,12 +139,28 @@ def run(chk):
                                 old_vid, opname, "gone" if gv0.status != 200 else "altered" if gv0.body != body_of(old) else "not listed", gv0.status, gv0.code, ids))
                         if opname == "delete" and site_ in VSTEP_OF:
                             row["vcase"] = (VSTEP_OF[site_], state == "old", gv0.status == 200 and gv0.body == body_of(old) and listed0)
+                    # every other case goes straight to emptying and deleting the bucket: what the killed request left behind must not
+                    # need another request on the same key to be cleared away
+                    direct = wid % 2 == 1
+                    row["then"] = "bucket emptied and deleted at once" if direct else "later requests on the key, then bucket emptied and deleted"
+                    if state == "missing" and not direct:
+                        # ---- (b3) the name of the key's parent directory can be used as a key
+                        pp = "/%s/dir" % bk
+                        rq_ = R.req("PUT", pp, body=b"parent-name-as-key")
+                        gq_ = R.req("GET", pp)
+                        if rq_.status != 200 or gq_.status != 200 or gq_.body != b"parent-name-as-key":
+                            problems.append("after the restart (nothing is listed) a PUT of the key 'dir' answers %d %s, GET %d" % (rq_.status, rq_.code, gq_.status))
+                        if versioned:
+                            lq_ = R.req("GET", "/" + bk, query={"versions": "", "prefix": "dir"})
+                            for x in (list(lq_.xml().findall("Version")) + list(lq_.xml().findall("DeleteMarker")) if lq_.status == 200 and lq_.xml() is not None else []):
+                                if x.findtext("Key") == "dir": R.req("DELETE", pp, query={"versionId": x.findtext("VersionId")})
+                        R.req("DELETE", pp)
                     if opname.startswith("multipart") and state != "new":
                         # the upload must still be completable
                         rc = R.req("POST", path, query={"uploadId": uid}, body=("<CompleteMultipartUpload><Part><PartNumber>1</PartNumber><ETag>%s</ETag></Part></CompleteMultipartUpload>" % petag).encode())
                         if rc.status != 200 or classify(R.req("GET", path)) != ("write", new):
                             problems.append("the multipart upload cannot be completed after the restart (%d %s)" % (rc.status, rc.code))
-                    if versioned and state in ("old", "new") and opname in ("put-overwrite", "copy", "multipart-overwrite"):
+                    if versioned and state in ("old", "new") and not direct and opname in ("put-overwrite", "copy", "multipart-overwrite"):
                         # ---- (b1) the current version, its metadata replaced in place, is archived as it is by the next overwrite
                         c1_ = classify(R.req("GET", path))
                         wcur = c1_[1] if c1_[0] == "write" else None
@@ -159,7 +175,7 @@ def run(chk):
                                 problems.append("after the restart the current version had its metadata replaced (self-copy, acknowledged) and was then overwritten (acknowledged): read by its id it answers %d with %s and metadata %r, not the replaced metadata" % (
                                     ga_.status, "its own bytes" if ga_.body == body_of(wcur) else "other bytes", e2e.meta_of(ga_.headers)))
                         lv = R.req("GET", "/" + bk, query={"versions": "", "prefix": key})
-                    if versioned and state in ("old", "new") and lv.status == 200 and lv.xml() is not None:
+                    if versioned and state in ("old", "new") and not direct and lv.status == 200 and lv.xml() is not None:
                         # ---- (b2) the current version can be deleted by its id, and is then gone
                         cur = [x.findtext("VersionId") for x in lv.xml().findall("Version") if x.findtext("IsLatest") == "true"]
                         if cur:
@@ -174,10 +190,11 @@ def run(chk):
                                 problems.append("after the restart the current version cannot be deleted by id: %d %s" % (dv.status, dv.code))
                     # ---- (c) later operations work
                     newer = 900000 + nb[0]
-                    rp_ = R.req("PUT", path, body=body_of(newer), headers=write_headers(newer))
-                    if rp_.status != 200 or classify(R.req("GET", path)) != ("write", newer):
-                        problems.append("a later PUT of the key answers %d %s / reads %s" % (rp_.status, rp_.code, classify(R.req("GET", path))))
-                    if R.req("DELETE", path).status != 204: problems.append("a later DELETE of the key fails")
+                    if not direct:
+                        rp_ = R.req("PUT", path, body=body_of(newer), headers=write_headers(newer))
+                        if rp_.status != 200 or classify(R.req("GET", path)) != ("write", newer):
+                            problems.append("a later PUT of the key answers %d %s / reads %s" % (rp_.status, rp_.code, classify(R.req("GET", path))))
+                        if R.req("DELETE", path).status != 204: problems.append("a later DELETE of the key fails")
                 # empty the bucket through the API and delete it
                 for x in (R.req("GET", "/" + bk, query={"uploads": ""}).xml() or []):
                     if x.tag == "Upload": R.req("DELETE", "/%s/%s" % (bk, x.findtext("Key")), query={"uploadId": x.findtext("UploadId")})
